@@ -808,7 +808,7 @@ def parse_scalar_obs(P: str) -> list[Ob]:
     pd = "octave_mcp.core.parser:Parser.parse_document"
     obs.append(Ob(f"{P}.P.read.meta", "P", "Parser.parse_meta_block on META: / KEY::<scalar> returns {key text: the scalar token's value}", [pm, pv], make(lambda ctx: [f"meta_field({k!r})" for k in PS.KINDS])))
     obs.append(Ob(f"{P}.P.read.block", "P", "Parser.parse_section on NAME: / indented KEY::<scalar> returns Block(NAME, [Assignment(key text, the scalar token's value)])", [ps, pv], make(lambda ctx: [f"block_child({k!r})" for k in PS.KINDS])))
-    obs.append(Ob(f"{P}.P.read.comments", "P", "Parser.parse_document on // lead / KEY::<scalar> // trail: the comment tokens' texts become the assignment's leading_comments / trailing_comment, the value is the token's value", [pd, ps, pv], make(lambda ctx: [f"with_comments({k!r})" for k in PS.KINDS])))
+    obs.append(Ob(f"{P}.P.read.comments", "P", "Parser.parse_document on // lead / KEY::<scalar> // trail: the comment tokens' texts become the assignment's leading_comments / trailing_comment, the value is the token's value", [pd, ps, pv], make(lambda ctx: [f"with_comments({k!r})" for k in PS.KINDS] + ["trailing_comment_after_multiline_list('IDENTIFIER', 'NUMBER')", "trailing_comment_after_multiline_list('STRING', 'IDENTIFIER')"])))
     obs.append(Ob(f"{P}.P.read.expression", "P", "Parser.parse_section on KEY::A op B [op C] for each of the seven expression operators: the value is the operand and operator token texts concatenated in order", [ps, pv, "octave_mcp.core.parser:Parser.parse_flow_expression"], make(lambda ctx: [f"expression(({o!r},))" for o in PS.OPS] + ["expression(('FLOW', 'SYNTHESIS'))", "expression(('CONSTRAINT', 'ALTERNATIVE'))", "expression(('AT', 'FLOW'))"])))
     obs.append(Ob(f"{P}.P.read.section", "P", "Parser.parse_section on §7::NAME / indented KEY::<scalar> returns Section('7', NAME, [Assignment]); NAME[→§T]: / KEY::<scalar> returns Block(NAME, target T, [Assignment])", [ps, "octave_mcp.core.parser:Parser.parse_section_marker", pv], make(lambda ctx: [f"section_marker({k!r})" for k in PS.KINDS] + [f"block_target({k!r})" for k in PS.KINDS])))
     obs.append(Ob(f"{P}.P.read.document", "P", "Parser.parse_document on ===DOC=== / KEY::<scalar> / ===END=== returns Document(DOC, [Assignment(key text, the scalar token's value)])", [pd, ps, pv], make(lambda ctx: [f"document({k!r})" for k in PS.KINDS])))
@@ -903,7 +903,8 @@ def emit_layout_obs(P: str) -> list[Ob]:
         return _contract_group(group, probe_emit_layout, "props.lexical:probe_emit_layout", ns="emit_layout")
 
     fns = ["octave_mcp.core.emitter:emit", "octave_mcp.core.emitter:emit_assignment", "octave_mcp.core.emitter:emit_block", "octave_mcp.core.emitter:emit_meta"]
-    return [Ob(f"{P}.P.emit.layout", "P", "emit on document spines (top-level assignment, blocks 1-3 deep, siblings, META with a nested level): the text is exactly the strict layout - explicit ===NAME=== / ===END===, KEY::value with no space, two spaces per level, one final newline - around the value texts emit_value returns", fns, make(lambda ctx: EL.all_contracts(ctx.thorough)))]
+    value_ob = Ob(f"{P}.P.emit.value", "P", "emit_value on scalars: int -> its decimal text, bool -> true / false, None -> null, str -> itself when needs_quotes says no, a double-quoted text otherwise", ["octave_mcp.core.emitter:emit_value"], make(lambda ctx: [f"value_scalar({k!r})" for k in ("int", "bool", "null", "str")]))
+    return [value_ob, Ob(f"{P}.P.emit.layout", "P", "emit on document spines (top-level assignment, blocks 1-3 deep, siblings, META with a nested level): the text is exactly the strict layout - explicit ===NAME=== / ===END===, KEY::value with no space, two spaces per level, one final newline - around the value texts emit_value returns", fns, make(lambda ctx: EL.all_contracts(ctx.thorough)))]
 
 
 # ---- the token stream is append-only (one documented in-place merge) -------------------------------------------------------
